@@ -160,7 +160,7 @@ func c05Monitor(m *vk.Meta, in mgrIn, out mgrOut) {
 			for _, h := range active {
 				n, ok := st.WorldBefore[h]
 				idx := int(hostN(h)) - 1
-				if ok && n.Up && n.Chan != nil && idx >= 0 && idx < len(in.Nodes) && !in.Nodes[idx].Cascade {
+				if ok && n.Up && n.Chan != nil && n.PingErrno == 0 && idx >= 0 && idx < len(in.Nodes) && !in.Nodes[idx].Cascade {
 					alive++
 				}
 			}
@@ -215,6 +215,18 @@ func c05Gen(o *vk.Out) mgrIn {
 		}
 		in.Nodes[n-1].Cascade = true
 		in.Nodes[0].Health = []string{"pingfail", "missing"}[r.Intn(2)]
+		in.MgrHost = 2
+		return in
+	}
+	if r.Intn(12) == 0 {
+		// the quorum gate: the master is dead, one replica of the published list is alive (replication stopped, so the
+		// zk-problems gate is open) and another answers the manager's pings with 1040 while its own mysync reports it healthy
+		in := mgrIn{Master: "h1", Iter: 4, Gap: 5, LockLostAt: -1, Active: []string{"h1", "h2", "h3"},
+			Cfg: mgrCfg{Failover: true, Delay: 3, Cooldown: 0, Timeout: 300, MaxAttempts: 3, SemiSync: r.Intn(2) == 0, DisableSSOnMaint: true}}
+		in.Nodes = []mgrNode{{Down: true, Health: "pingfail"}, {Stopped: true}, {Dubious: true}}
+		if !in.Cfg.SemiSync {
+			in.Active = []string{"h1", "h3"}
+		}
 		in.MgrHost = 2
 		return in
 	}
